@@ -1021,7 +1021,13 @@ func unparsePipelinedCall(call b6.CallExpression, top bool) (string, bool) {
 	if !ok {
 		return "", false
 	}
-	rhs, ok := unparseCall(b6.CallExpression{Function: call.Function, Args: call.Args[1:]}, true)
+	var rhs string
+	if f, pipelined := call.Function.AnyExpression.(b6.CallExpression); pipelined && f.Pipelined && len(call.Args) == 1 {
+		// a | (b | c) isn't a | b | c: pipelines group to the left
+		rhs, ok = unparseExpression(call.Function, false)
+	} else {
+		rhs, ok = unparseCall(b6.CallExpression{Function: call.Function, Args: call.Args[1:]}, true)
+	}
 	if !ok {
 		return "", false
 	}
